@@ -112,6 +112,31 @@ void FunctorManager::rollback()
   }
 }
 
+std::vector<FunctorPtr> FunctorManager::snapshot() const
+{
+  std::vector<FunctorPtr> saved;
+  saved.reserve(_declarations.size());
+  for (const Entry& e : _declarations)
+    saved.push_back(e.functor);
+  return saved;
+}
+
+void FunctorManager::restore(const std::vector<FunctorPtr>& saved)
+{
+  _backed.reset();
+  _backed_id = nid;
+  while (_declarations.size() > saved.size())
+    _declarations.pop_back();
+  for (size_t i = 0; i < _declarations.size(); ++i)
+  {
+    if (_declarations[i].functor != saved[i])
+    {
+      _declarations[i].functor = saved[i];
+      _declarations[i].clearCache();
+    }
+  }
+}
+
 FunctorManager::Env FunctorManager::createEnv(Context& caller, unsigned id, const std::vector<Expression*>& pvals)
 {
   uint8_t r = caller.recursion();
